@@ -30,6 +30,8 @@ inductive Err where
   | diverge        -- fuel exhausted: the Go loop would not terminate within len+2 iterations
   deriving DecidableEq, Repr, Inhabited
 
+deriving instance DecidableEq for Except
+
 abbrev Res (α : Type) := Except Err α
 
 @[simp] theorem ok_bind {α β} (a : α) (f : α → Res β) : (Except.ok a >>= f) = f a := rfl
